@@ -306,6 +306,46 @@ func init() {
 					return err
 				}
 			}
+		case "special":
+			// file sizes at and around multiples of the default chunk size (256 KiB), at the root and one level down
+			root := &TreeSpec{Name: "root", Kind: "dir"}
+			sub := &TreeSpec{Name: "sub", Kind: "dir"}
+			for i, sz := range []int{0, 1, 262143, 262144, 262145, 524287, 524288, 524289, 786432, 1048576} {
+				root.Children = append(root.Children, &TreeSpec{Name: fmt.Sprintf("f%d", sz), Kind: "file", Size: sz, Seed: int64(i + 1)})
+				if i%3 == 0 {
+					sub.Children = append(sub.Children, &TreeSpec{Name: fmt.Sprintf("g%d", sz), Kind: "file", Size: sz, Seed: int64(i + 20)})
+				}
+			}
+			root.Children = append(root.Children, sub)
+			if err := runImportCase(&ImportCase{Fam: "import", ID: "special-sizes", Tree: root, W: 174}, tr); err != nil {
+				return err
+			}
+			// a file of exactly one / two chunks as the import root itself
+			for _, sz := range []int{262144, 524288} {
+				ic := &ImportCase{Fam: "import", ID: fmt.Sprintf("special-rootfile-%d", sz), Tree: &TreeSpec{Name: "root", Kind: "file", Size: sz, Seed: 3}, W: 174}
+				if err := runImportCase(ic, tr); err != nil {
+					return err
+				}
+			}
+			// nesting: a chain of d directories below the root, every level with a file before and entries after the
+			// child that leads down (names sort around it), for d = 1..12
+			for d := 1; d <= 12; d++ {
+				root := &TreeSpec{Name: "root", Kind: "dir"}
+				cur := root
+				for lvl := 1; lvl <= d; lvl++ {
+					next := &TreeSpec{Name: "m-down", Kind: "dir"}
+					cur.Children = append(cur.Children,
+						&TreeSpec{Name: "a-before", Kind: "file", Size: 5, Seed: int64(lvl)},
+						next,
+						&TreeSpec{Name: "z-after", Kind: "file", Size: 7, Seed: int64(100 + lvl)},
+						&TreeSpec{Name: "z-dir", Kind: "dir", Children: []*TreeSpec{{Name: "leaf", Kind: "symlink", Target: "../a-before"}}})
+					cur = next
+				}
+				cur.Children = append(cur.Children, &TreeSpec{Name: "bottom", Kind: "file", Size: 3, Seed: 9})
+				if err := runImportCase(&ImportCase{Fam: "import", ID: fmt.Sprintf("special-depth-%d", d), Tree: root, W: 3}, tr); err != nil {
+					return err
+				}
+			}
 		case "random":
 			for i := 0; i < *count; i++ {
 				ic := &ImportCase{Fam: "import", ID: fmt.Sprintf("rand-%d-%d", *seed, i), Tree: randomTree(r, 0, true), W: 2 + r.Intn(4)}
